@@ -125,9 +125,8 @@ def gen_input(rng, kind, delim):
             fs[-1] = b"z"       # no trailing delimiter (that class is generated separately)
         lines.append(delim.join(fs))
     if kind == "many":
-        if rng.random() < 0.4:
-            # longer than a writer block (the extracted model's list reversal is quadratic in the line length)
-            lines.append(b"L" * 8300 + delim + b"tail")
+        if rng.random() < 0.6:
+            lines.append(b"L" * 20000 + delim + b"tail")        # longer than two writer blocks
         lines += [lines[0]] * 5
     if kind == "some":
         lines.append(b"")
@@ -201,6 +200,11 @@ def main(argv):
         for _ in range(150):
             runs.append({"n": rng.randrange(1, 18), "comp": rng.choice(("none", "gzip", "bzip2")), "spec": rng.choice(specs),
                          "delim": rng.choice(delims), "kind": rng.choice(["few", "some", "many"]), "naming": rng.choice(["prefix", "explicit"])})
+    # lines that end exactly at / around the 8192-byte block of the per-shard writer thread
+    # (ThreadedBufferedStream::write spills when current_ + length > end_; '\n' goes through Ensure(1))
+    for delta in (-2, -1, 0, 1, 2):
+        for comp in ("none", "gzip"):
+            runs.append({"n": 1 if delta % 2 == 0 else 2, "comp": comp, "spec": "1-", "delim": b"\t", "kind": "block-edge%+d" % delta, "naming": "prefix"})
     # classes with a known open finding, kept apart
     runs.append({"n": 5, "comp": "none", "spec": "1-", "delim": b"\t", "kind": "cr", "naming": "prefix"})
     runs.append({"n": 7, "comp": "none", "spec": "1", "delim": b"\t", "kind": "trailing-delim", "naming": "prefix"})
@@ -209,7 +213,11 @@ def main(argv):
     cli_budget = 12 if c.tier == "quick" else 60
     for ri, r in enumerate(runs):
         n, comp, spec, delim = r["n"], r["comp"], r["spec"], r["delim"]
-        if r["kind"] == "cr":
+        if r["kind"].startswith("block-edge"):
+            dlt = int(r["kind"][len("block-edge"):])
+            # every line is 8192+delta bytes with its newline: the k-th line ends k*delta bytes off a block edge
+            data = b"".join(bytes([97 + i]) * (8191 + dlt) + b"\n" for i in range(5)) + b"tail\n"
+        elif r["kind"] == "cr":
             data = b"a\r\nb\r\nplain\nx\r\r\n"
         elif r["kind"] == "trailing-delim":
             data = b"".join(b"k%d\t\nk%d\tv\nk%d\n" % (i, i, i) for i in range(12))
